@@ -7,6 +7,10 @@ BASELINE_OFF = ("cd /repo && cargo nextest run --workspace --no-fail-fast --test
 
 # id -> (level, technique, design_ref, text, note)
 CHECKS = {
+ "C05": ("exploration", "bounded exhaustive enumeration of signed requests x single-component mutations, differential against a reference verifier, on the real S3Service::call",
+         "DESIGN §4 C05",
+         "A grid of honestly signed requests (5 methods x 15 paths x 10 query multisets x 8 signed-header shapes x payload/mode x HTTP/1.1|HTTP/2) times every applicable single-component mutation and 6 canonical-equivalent rewrites; every case runs through the real service and is compared with a reference verifier written from the AWS specification. Exhaustive over the stated grid: both directions of the iff (accept honest, reject every tampering) are decided per case.",
+         "reference signer validated on the AWS documentation vectors at start-up and against the aws-sigv4 crate on every grid point (disagreeing points excluded and counted); values outside the grid and multi-component tampering are not covered"),
  "C20": ("exploration", "bounded exhaustive enumeration of pattern x input pairs and policy document shapes against a reference model, on the real code",
          "DESIGN §4 C20",
          "Every pattern of length <=6 (thorough 7) over {a,b,*,?} against every input of length <=7 (8) over {a,b}, plus multi-byte alphabets, all pattern pairs, and the full product of policy shapes and single JSON mutations, each compared with a DP reference matcher / grammar validator. A for-all over a small alphabet is the right level: the matcher's state is four indices, so short strings reach every control path.",
